@@ -73,6 +73,45 @@ def gen(rng, tier):
         macro = [[f[v] for v in t] for t in micro]
         yield {'macro': macro, 'micro': micro, 'pos': rng.random() < 0.5, 'lag': rng.choice([1, 1, 2, 3, 4]),
                'style': style + ('' if erg else '-nonergodic'), 'alpha': akind}
+    for _ in range(G.budget(40) if tier == 'quick' else 1500):
+        # bad lumpings of driven ring walks: raw projections with negative and > 1 entries in one row
+        k = rng.randint(4, 8)
+        nm = 3 if k <= 4 else rng.randint(3, min(k - 1, 4))
+        p = rng.choice([0.6, 0.8, 0.9])
+        t = [rng.randrange(k)]
+        for _i in range(rng.randint(20, 80) - 1):
+            r = rng.random()
+            t.append((t[-1] + 1) % k if r < p else t[-1] if r < p + (1 - p) / 2 else (t[-1] - 1) % k)
+        present = sorted(set(t))
+        if len(present) < nm + 1:
+            continue
+        f = {a: 3 + 2 * (i % nm) for i, a in enumerate(present)}
+        yield {'macro': [[f[v] for v in t]], 'micro': [t], 'pos': rng.random() < 0.8, 'lag': 1,
+               'style': 'ring-mod', 'alpha': 'index'}
+    for _ in range(G.budget(24) if tier == 'quick' else 600):
+        # irreducible but periodic micro chains (no self transitions): must be refused
+        k = rng.randint(3, 7)
+        labs, akind = G.alphabet(rng, k=k)
+        rng.shuffle(labs)
+        kind = rng.choice(['bipartite', 'cycle', 'tripartite'])
+        if kind == 'cycle':
+            start = rng.randrange(k)
+            t = [labs[(start + i) % k] for i in range(rng.randint(3 * k, 8 * k))]
+            lag = rng.choice([1, 1, 2]) if k > 2 else 1
+        else:
+            parts = 2 if kind == 'bipartite' else 3
+            if k < 2 * parts - 1:
+                parts = 2
+            groups = [labs[i::parts] for i in range(parts)]
+            n = rng.randint(30 * k, 60 * k)
+            t = [rng.choice(groups[i % parts]) for i in range(n)]
+            lag = rng.choice([1, 1, 3, 5]) if parts == 2 else rng.choice([1, 2, 4])
+        present = sorted(set(t))
+        nm = rng.randint(2, len(present))
+        mlabs, _ = G.alphabet(rng, k=nm)
+        f = lump(rng, present, nm, mlabs)
+        yield {'macro': [[f[v] for v in t]], 'micro': [t], 'pos': rng.random() < 0.5, 'lag': lag,
+               'style': 'periodic-' + kind, 'alpha': akind}
     if tier == 'thorough':
         for k in (3, 4, 5):
             labs = list(range(k))
